@@ -52,8 +52,8 @@ CHECKS = {
             "DESIGN.md §5 C08", "stepsim"),
     "C03": ("exploration",
             "deterministic simulation: C02's world plus a seeded adversary (other key) publishing forged/mutated/unsigned material on the simulated DA, in the polled P2P header store, and to the header-only admission pipeline; prefix-equality, no-mark, no-halt, no-panic oracles",
-            "8 kinds of adversarial headers and 4 kinds of adversarial signed data built without the proposer's private key are interleaved with genuine traffic, arbitrary delivery order and restarts on a real follower; nothing adversarial may be applied, stored in the chain, marked DA-included or admitted by the light-node pipeline (real types + go-header Verify); DA-borne material may neither halt the follower nor keep it from reaching the proposer's height. Sampling, not proof.",
-            "Light node = the library's admission pipeline on real types, not the whole LightNode; P2P stores are doubles. A follower halted by junk P2P material is not judged.",
+            "12 kinds of adversarial headers (incl. a third party's fully self-consistent headers under its own address) and 7 kinds of adversarial signed data built without the proposer's private key are interleaved with genuine traffic, arbitrary delivery order and restarts on a real follower; nothing adversarial may be applied, stored in the chain, marked DA-included or admitted by the light-node pipeline (real types + go-header Verify); DA-borne material may neither halt the follower nor keep it from reaching the proposer's height. A tenth of the scenarios are whole-node attacks: a real sequencer node, full node and header-only LightNode over a libp2p mocknet plus a raw gossipsub adversary publishing the forged headers (aimed at the next height, racing the genuine header, at past heights and at the head), forged data and junk on the chain's topics; afterwards every header in the victims' P2P header stores must be the proposer's, the full node's chain a caught-up prefix of the proposer's, and no node may have shut itself down. Sampling, not proof.",
+            "Manager-level scenarios: light node = the library's admission pipeline on real types, P2P stores are doubles, a follower halted by junk P2P material is not judged. Whole-node scenarios: real nodes; the adversary speaks gossip only (no malicious exchange server).",
             "DESIGN.md §5 C03", "stepsim"),
     "C09": ("exploration",
             "deterministic simulation: real RetrieveLoop + RetrieveWithHelpers against a simulated DA with seeded contents (genuine + junk blobs, >100 per height) and per-height fetch outcome scripts; oracle over the DA call log and emitted events",
